@@ -32,6 +32,14 @@ func RewriteSchemaToRef(sp *spec.Swagger, key string, ref spec.Ref) error {
 
 	switch refable := value.(type) {
 	case *spec.Schema:
+		if path.Base(key) == "not" {
+			// the schema under "not" is held by a pointer of its parent schema, which is no container known to
+			// rewriteParentRef: it is replaced in place (callers keep a clone of the schema they move)
+			*refable = spec.Schema{SchemaProps: spec.SchemaProps{Ref: ref}}
+
+			return nil
+		}
+
 		return rewriteParentRef(sp, key, ref)
 
 	case spec.Schema:
